@@ -215,9 +215,97 @@ def run(chk, tier, seed):
                               "%s %r (current dir %r): valid=%s, selected %d files e.g. %r -- contradicts Afsp.tla's documented relation"
                               % ("info wildcard" if e["e"] == "match" else "file-name lookup", pat, chr(e["cdir"]), e.get("valid"),
                                  len(e["sel"]), e["sel"][:4]), dict(event=dict(e, sel=e["sel"][:20])))
+        context_phase(chk, dfs, scratch, quick, rnd)
         chk.extra["wildcards"] = len(cases)
         chk.extra["files_per_wildcard"] = len(files)
         chk.extra["cli_runs"] = len(cli_cases)
+
+
+def context_phase(chk, dfs, scratch, quick, rnd):
+    """Context.tla: every sequence of --drive / --dir / --ui / --verbose / --show-config options (TLC) in front of `type F` and
+    `info *`; the file F exists in every (drive, volume, directory) and says where it is."""
+    r = common.tlc("Context", "Context.cfg")
+    chk.add_tlc("Context.cfg", r)
+    if r.violated:
+        chk.violation("model:" + r.violated, "Context.tla: %s\n%s" % (r.violated, "\n".join(r.cex[:30])), dict(spec="Context.tla"))
+    cases = sorted({json.dumps(c, sort_keys=True): c for c in r.cases}.values(), key=lambda c: json.dumps(c, sort_keys=True))
+    if quick:
+        rnd.shuffle(cases)
+        cases = [c for c in cases if len(c["opts"]) <= 2] + [c for c in cases if len(c["opts"]) > 2][:250]
+    E = mkdisc.entry
+
+    def place(d, v, c):
+        return ("%d%s%c" % (d, v or "-", c)).encode()
+    def body_writer_for(d, v):
+        def bw(img, origin):
+            mkdisc.put(img, origin + 10, place(d, v, 36).ljust(256, b"."))
+            mkdisc.put(img, origin + 12, place(d, v, 88).ljust(256, b"."))
+        return bw
+    # drive 0: Opus disc, volumes A and B; drive 1: Acorn DFS
+    vols = []
+    for k, L in enumerate("AB"):
+        vols.append(dict(letter=L, start_track=1 + 30 * k, title=b"VOL" + L.encode(), entries=[E("F", "X", length=3, start=12), E("F", "$", length=3, start=10)]))
+    img = mkdisc.surface_opus(80, 91, vols)
+    for k, L in enumerate("AB"):
+        o = (1 + 30 * k) * 18
+        mkdisc.put(img, o + 10, place(0, L, 36).ljust(256, b"."))
+        mkdisc.put(img, o + 12, place(0, L, 88).ljust(256, b"."))
+    p0 = mkdisc.write(os.path.join(scratch, "ctx0.sdd"), bytes(img))
+    img1 = mkdisc.surface_dfs(400, 92, title=b"DRIVE1", entries=[E("F", "X", length=3, start=12), E("F", "$", length=3, start=10)])
+    mkdisc.put(img1, 10, place(1, "", 36).ljust(256, b"."))
+    mkdisc.put(img1, 12, place(1, "", 88).ljust(256, b"."))
+    p1 = mkdisc.write(os.path.join(scratch, "ctx1.ssd"), bytes(img1))
+
+    def argv_of(opts):
+        a = []
+        for t in opts:
+            if t["k"] == "drive":
+                a += ["--drive", "%d%s" % (t["d"], t["v"])]
+            elif t["k"] == "dir":
+                a += ["--dir", chr(t["c"])]
+            elif t["k"] == "ui":
+                a += ["--ui", t["s"]]
+            elif t["k"] == "verbose":
+                a += ["--verbose"]
+            else:
+                a += ["--show-config"]
+        return a
+
+    def decode(b):
+        m = re.match(rb"^([01])([AB-])([$X])$", b)
+        return dict(drive=int(m.group(1)), vol="" if m.group(2) == b"-" else m.group(2).decode(), dir=m.group(3)[0]) if m else dict(drive=9, vol="?", dir=0)
+
+    def do(c):
+        base = [dfs, "--file", p0, "--file", p1] + argv_of(c["opts"])
+        o = common.run(base + ["type", "--binary", "F"], timeout=30)
+        o2 = common.run(base + ["info", "*"], timeout=30)
+        rows = discs.parse_info(o2.out) or []
+        # which F was listed: the one whose directory and start sector belong to ... info shows dir and name only, so read it back by drive
+        listed = dict(drive=9, vol="?", dir=0)
+        if len(rows) == 1 and bytes(rows[0]["name"]) == b"F":
+            # info prints the file of the context; its directory is in the row, drive/volume are those of the type run with an explicit directory
+            o3 = common.run(base + ["type", "--binary", "%c.F" % rows[0]["dir"]], timeout=30)
+            listed = decode(o3.out)
+        return dict(e="ctx", opts=c["opts"], obs=decode(o.out), listed=listed, rc=(o.rc or 0) + (o2.rc or 0), argv=argv_of(c["opts"]),
+                    err=(o.err + o2.err).decode("latin1")[-160:])
+    events = common.pmap(do, cases)
+    for e in events:
+        chk.case(("context", tuple(e["argv"])), nontrivial=len(e["argv"]) > 0)
+    trace = os.path.join(scratch, "ctx-trace.ndjson")
+    with open(trace, "w") as f:
+        for e in events:
+            f.write(json.dumps(e) + "\n")
+    ok, tr = common.validate_trace("TraceContext", "TraceContext.cfg", trace, timeout=1200)
+    chk.add_tlc("TraceContext", tr)
+    chk.traces += len(events)
+    if not ok or not tr.verdicts:
+        raise common.MachineryError("TraceContext did not consume the whole trace:\n" + tr.output[-3000:])
+    for ln in sorted(tr.verdicts[-1]["bad"]):
+        e = events[ln - 1]
+        chk.violation("context:%s" % "+".join(sorted({t["k"] for t in e["opts"]})),
+                      "dfs %s type F / info *: read %r, listed %r (rc sum %s); the options select %r; stderr %r"
+                      % (" ".join(e["argv"]), e["obs"], e["listed"], e["rc"], [t for t in e["opts"] if t["k"] in ("drive", "dir")], e["err"]), dict(event=e))
+    chk.extra["context_sequences"] = len(events)
 
 
 def replay(chk, path):
